@@ -516,15 +516,19 @@ def e2e_configs(quick: bool) -> list[dict]:
                 "metrics": "BRANCH", "population": 5, "min_strategy": "CASE", "min_direction": "BACKWARD",
                 "extra": extra}
 
-    out = [cfg("c_numeric", 3, "DYNAMOSA", []),
+    # c_numeric is only used with SIMPLE assertions: mutants of `while b:` loop forever and the abandoned
+    # executor threads keep the interpreter busy for many minutes (in-process execution cannot kill them)
+    out = [cfg("c_enum", 3, "DYNAMOSA", []),
            cfg("c_state", 5, "WHOLE_SUITE", []),
            cfg("c_string", 7, "MIO", []),
            cfg("c_container", 4, "DYNAMOSA", ["--assertion_minimization", "False"]),
-           cfg("c_state", 9, "DYNAMOSA", [], assertions="SIMPLE")]
+           cfg("c_numeric", 9, "DYNAMOSA", [], assertions="SIMPLE")]
     if quick:
         return out
+    out.append(cfg("c_float", 6, "MIO", ["--mutation_strategy", "FIRST_TO_LAST", "--mutation_order", "2"]))
     algs = ["DYNAMOSA", "MIO", "WHOLE_SUITE"]
-    for mi, mod in enumerate(e2e.MODULES):
+    mods = [m for m in e2e.MODULES if m != "c_numeric"]
+    for mi, mod in enumerate(mods):
         for si, seed in enumerate([11, 23]):
             out.append(cfg(mod, seed + mi, algs[(mi + si) % 3], [], it=5))
             strat, order = HOM[(mi + 2 * si) % len(HOM)]
@@ -533,7 +537,8 @@ def e2e_configs(quick: bool) -> list[dict]:
         out.append(cfg(mod, 31 + mi, algs[mi % 3], ["--assertion_minimization", "False"]))
         out.append(cfg(mod, 37 + mi, algs[(mi + 1) % 3], ["--maximum_mutants", "6"]))
         out.append(cfg(mod, 41 + mi, algs[(mi + 2) % 3], [], assertions="SIMPLE"))
-    out.append(cfg("c_numeric", 43, "DYNAMOSA", ["--maximum_mutation_time", "0"]))
+    out.append(cfg("c_numeric", 41, "MIO", [], assertions="SIMPLE"))
+    out.append(cfg("c_enum", 43, "DYNAMOSA", ["--maximum_mutation_time", "0"]))
     out.append(cfg("c_state", 47, "MIO", ["--filter_assertions_in_subprocess", "False"]))
     return out
 
